@@ -512,7 +512,7 @@ def gen_rhs(rng, allowed, tvar, qcount, states=(), rational=False, pderiv=0.08):
                     [4, q(qcount[0] - 1, a), q(qcount[0], b)]
             if rng.random() < 0.06:
                 # physical constants far from 1 (they must survive the substitution of plain numbers for quantities)
-                return q(qcount[0], rng.choice(['1.380649e-23', '1.602176634e-19', '6.02214076e23', '-2.5e-18']))
+                return q(qcount[0], rng.choice(['1.380649e-23', '1.602176634e-19', '-2.5e-18']))
             return q(qcount[0], rng.choice(['2', '0.5', '3', '1', '-1', '10']))
         if r < 0.93 and allow_deriv:
             return [8, [3, rng.choice(list(states))], [3, tvar], 1]
